@@ -199,11 +199,14 @@ Definition rg_wf (r : N * N) : Prop := fst r < 128 /\ snd r < 256.
 (* complete device, observed through exported interface signals: the monitor reads the events of a cycle
    from the implementation's OUTPUT word
      active_address[0..6] active_config[7..14] s_recv[15] s_type[16..17] s_req[18..25] s_value[26..41]
-     new_token[42] status_req[43] ack[44] bus_reset[45]
+     new_token[42] status_req[43] ack[44] bus_reset[45] tx_valid[46] tx_data[47..54] tokenizer.endpoint[55..58]
    and compares the registers with the prediction of the model (dev_mon) / of the specification (dev_spec_mon). *)
+(* `the status stage has been answered` = status_requested while the token being answered is addressed to the control endpoint
+   (tokenizer.endpoint[55..58] = 0): the status stage is a transaction on endpoint 0; a status_requested strobe raised for another
+   endpoint's token is not one (and a commit that follows it is a violation) *)
 Definition ev_of_dout (o : N) : ev :=
   mkEv (nb (bits o 15 1)) (bits o 16 2) (bits o 18 8) (bits o 26 16)
-       (nb (bits o 42 1)) (nb (bits o 43 1)) (nb (bits o 44 1)) (nb (bits o 45 1)).
+       (nb (bits o 42 1)) (nb (bits o 43 1) && (bits o 55 4 =? 0)) (nb (bits o 44 1)) (nb (bits o 45 1)).
 Definition m_enc (m : mstate) : N := h_enc (m_h m) + 16 * (m_addr m + 128 * m_cfg m).
 Definition m_dec (n : N) : mstate := mkM (h_dec (n mod 16)) ((n / 16) mod 128) (n / 2048).
 Definition dev_mon (ms : N) (i o : N) : option (N * bool) :=
@@ -251,10 +254,11 @@ Definition hd_spec_mon (ms : N) (i o : N) : option (N * bool) :=
      s_recv[0] s_type[1..2] s_req[3..10] s_value[11..26] tokenizer.new_token[27] handshakes_in.ack[28]   (+ higher bits: the other
      tokenizer fields, setup.length / is_in_request, rx_ready_for_response, ...: read by the control FSM only)
    output word  address_changed[0] new_address[1..7] config_changed[8] new_config[9..16] status_requested[17]
-   (status_requested is the control endpoint's own strobe: an observation, as in dev_spec_mon). *)
+   (status_requested is the control endpoint's own strobe; it counts as the answer to the status stage only while
+   tokenizer.endpoint[34..37 of the input word] is the control endpoint's number 0, as in dev_spec_mon). *)
 Definition ev_of_cio (i o : N) : ev :=
   mkEv (nb (bits i 0 1)) (bits i 1 2) (bits i 3 8) (bits i 11 16)
-       (nb (bits i 27 1)) (nb (bits o 17 1)) (nb (bits i 28 1)) false.
+       (nb (bits i 27 1)) (nb (bits o 17 1) && (bits i 34 4 =? 0)) (nb (bits i 28 1)) false.
 Definition ctl_spec_mon (ms : N) (i o : N) : option (N * bool) :=
   let e := ev_of_cio i o in
   let prevf := ms mod 67108864 in
